@@ -169,3 +169,109 @@ func (ws *WebSeed) SetMode(m string) { ws.mu.Lock(); ws.Mode = m; ws.mu.Unlock()
 func (ws *WebSeed) NumRequests() int { ws.mu.Lock(); defer ws.mu.Unlock(); return len(ws.Requests) }
 
 var _ = refcodec.MsgChoke
+
+// ---------------------------------------------------------------------------------------------
+// scripted HTTP tracker (BEP 3 / 23) over the in-memory network
+
+type HTTPTrackerSrv struct {
+	w    *World
+	Addr string
+	URL  string
+	mu   sync.Mutex
+	Reqs []TrackerHTTPReq
+	// Peers is the compact peer list handed out; Fail makes it answer with a failure reason.
+	Peers    []byte
+	Fail     string
+	Interval int
+	conns    []*vnet.End
+	// Hold parks every request until Release is called (the explorer owns the reply instant).
+	Hold     bool
+	cond     *sync.Cond
+	released int
+	parked   int
+}
+
+// Parked is the number of requests waiting for Release.
+func (ts *HTTPTrackerSrv) Parked() int { ts.mu.Lock(); defer ts.mu.Unlock(); return ts.parked }
+
+// Release lets one parked request be answered.
+func (ts *HTTPTrackerSrv) Release() {
+	ts.mu.Lock()
+	ts.released++
+	ts.cond.Broadcast()
+	ts.mu.Unlock()
+}
+
+// ReleaseAll stops holding (teardown).
+func (ts *HTTPTrackerSrv) ReleaseAll() {
+	ts.mu.Lock()
+	ts.Hold = false
+	ts.cond.Broadcast()
+	ts.mu.Unlock()
+}
+
+type TrackerHTTPReq struct {
+	Step      int
+	UserAgent string
+	Query     url.Values
+	RawQuery  string
+}
+
+func (w *World) NewHTTPTracker(ip string) *HTTPTrackerSrv {
+	ts := &HTTPTrackerSrv{w: w, Addr: ip + ":80", URL: "http://" + ip + "/announce", Interval: 1800}
+	ts.cond = sync.NewCond(&ts.mu)
+	w.HTTPTrackers = append(w.HTTPTrackers, ts)
+	w.dialTargets()[ts.Addr] = func() (net.Conn, error) {
+		cli, lab := vnet.NewPair(&net.TCPAddr{IP: net.IPv4(127, 0, 0, 1), Port: 50800}, &net.TCPAddr{IP: net.ParseIP(ip), Port: 80})
+		ts.mu.Lock()
+		ts.conns = append(ts.conns, lab)
+		ts.mu.Unlock()
+		go ts.serve(lab)
+		return cli, nil
+	}
+	return ts
+}
+
+func (ts *HTTPTrackerSrv) serve(c *vnet.End) {
+	defer c.Close()
+	br := bufio.NewReader(c)
+	for {
+		req, err := http.ReadRequest(br)
+		if err != nil {
+			return
+		}
+		ts.mu.Lock()
+		ts.Reqs = append(ts.Reqs, TrackerHTTPReq{Step: ts.w.Step, UserAgent: req.Header.Get("User-Agent"), Query: req.URL.Query(), RawQuery: req.URL.RawQuery})
+		if ts.Hold {
+			ts.parked++
+			want := ts.parked
+			for ts.Hold && ts.released < want {
+				ts.cond.Wait()
+			}
+		}
+		var body []byte
+		if ts.Fail != "" {
+			body = refcodec.Benc(refcodec.D("failure reason", ts.Fail))
+		} else {
+			body = refcodec.Benc(refcodec.D("interval", int64(ts.Interval), "peers", ts.Peers))
+		}
+		ts.mu.Unlock()
+		fmt.Fprintf(c, "HTTP/1.1 200 OK\r\nContent-Length: %d\r\nContent-Type: text/plain\r\n\r\n", len(body))
+		c.Write(body)
+	}
+}
+
+func (ts *HTTPTrackerSrv) Requests() []TrackerHTTPReq {
+	ts.mu.Lock()
+	defer ts.mu.Unlock()
+	return append([]TrackerHTTPReq{}, ts.Reqs...)
+}
+
+func (ts *HTTPTrackerSrv) CloseAll() {
+	ts.ReleaseAll()
+	ts.mu.Lock()
+	defer ts.mu.Unlock()
+	for _, c := range ts.conns {
+		c.Close()
+	}
+}
